@@ -21,22 +21,22 @@ type LogCfg struct {
 }
 
 type Config struct {
-	Store    string   `json:"store"`          // mem | sqlite
-	Seam     string   `json:"seam"`           // none (inline, sequential) | iface | driver
-	Logs     []LogCfg `json:"logs"`
-	WitKeys  []string `json:"wit_keys"`       // "ed:<n>" | "cosig:<n>"; n = witness key number
-	Clients  int      `json:"clients"`
-	Strategy string   `json:"strategy,omitempty"` // uniform | pct | hold
-	Prio     []int    `json:"prio,omitempty"`
-	ChangeAt []int    `json:"change_at,omitempty"`
-	Hold     int      `json:"hold,omitempty"`
-	Dense    uint64   `json:"dense"`
-	Jumps    bool     `json:"jumps,omitempty"`
-	Snap     bool     `json:"snap,omitempty"`  // side-snapshot the store around every op
-	ReadBack bool     `json:"readback,omitempty"` // read the checkpoint back after every op
-	Extra    map[string]int64 `json:"extra,omitempty"` // scenario-specific knobs
-	Notes    map[string]string `json:"notes,omitempty"` // scenario-specific string knobs (e.g. crash points)
-	DBPath   string   `json:"-"` // run on an existing SQLite file (crash recovery tails); never part of a replay file
+	Store    string            `json:"store"` // mem | sqlite
+	Seam     string            `json:"seam"`  // none (inline, sequential) | iface | driver
+	Logs     []LogCfg          `json:"logs"`
+	WitKeys  []string          `json:"wit_keys"` // "ed:<n>" | "cosig:<n>"; n = witness key number
+	Clients  int               `json:"clients"`
+	Strategy string            `json:"strategy,omitempty"` // uniform | pct | hold
+	Prio     []int             `json:"prio,omitempty"`
+	ChangeAt []int             `json:"change_at,omitempty"`
+	Hold     int               `json:"hold,omitempty"`
+	Dense    uint64            `json:"dense"`
+	Jumps    bool              `json:"jumps,omitempty"`
+	Snap     bool              `json:"snap,omitempty"`     // side-snapshot the store around every op
+	ReadBack bool              `json:"readback,omitempty"` // read the checkpoint back after every op
+	Extra    map[string]int64  `json:"extra,omitempty"`    // scenario-specific knobs
+	Notes    map[string]string `json:"notes,omitempty"`    // scenario-specific string knobs (e.g. crash points)
+	DBPath   string            `json:"-"`                  // run on an existing SQLite file (crash recovery tails); never part of a replay file
 }
 
 type Op struct {
